@@ -34,6 +34,25 @@ fn main() {
         ("search", "c10") => c10::search(&args[3..]),
         ("search", "c12") => c12::search(&args[3..]),
         ("search", "c13") => c13::search(&args[3..]),
+        ("run", path) => {
+            // manual triage helper: replay run <source file> [literal args..]  (compile, evaluate, print the result literal)
+            let src = std::fs::read_to_string(path).unwrap_or_else(|e| { eprintln!("cannot read {path}: {e}"); exit(2) });
+            match garble_lang::compile(&src) {
+                Err(e) => { println!("rejected: {e:?}"); 0 }
+                Ok(prg) => {
+                    if args.len() > 3 {
+                        let r = std::panic::catch_unwind(|| {
+                            let mut ev = prg.evaluator();
+                            for a in &args[3..] { ev.parse_literal(a).unwrap(); }
+                            let out = ev.run().map_err(|e| format!("{e:?}")).and_then(|o| o.into_literal().map(|l| format!("{l}")).map_err(|e| format!("{e:?}")));
+                            println!("result: {out:?}");
+                        });
+                        if r.is_err() { println!("PANICKED"); }
+                    } else { println!("accepted"); }
+                    0
+                }
+            }
+        }
         ("replay", path) => {
             let text = match std::fs::read_to_string(path) {
                 Ok(t) => t,
